@@ -32,6 +32,8 @@ def failure_edge(cond, pol, var, sentinels):
     if n is None:
         return False
     if n.k in ("DeclRefExpr", "MemberExpr", "ArraySubscriptExpr"):
+        if access_path(n) == var and pol and "NONZERO" in sentinels:
+            return True                 # functions that return an error NUMBER (posix_fallocate, pthread_*): non-zero is failure
         return access_path(n) == var and not pol and "NULL" in sentinels
     if n.k != "BinaryOperator" or n.op not in CMP:
         return False
@@ -46,6 +48,8 @@ def failure_edge(cond, pol, var, sentinels):
         return False
     ov = other.v
     otext = unparse(other)
+    if "NONZERO" in sentinels and ov == 0 and op in ("!=", ">"):
+        return True
     if "NULL" in sentinels and ov == 0 and op == "==":
         return True
     if -1 in sentinels and ov == -1 and op == "==":
